@@ -32,7 +32,7 @@ def pushed (left : Bool) (old vs : List Bytes) : List Bytes := if left then vs.r
 def pushGen (left xOnly : Bool) : Cmd := fun env db args =>
   match args with
   | _ :: k :: v :: vs =>
-    let (db, _) := checkTTL db env.now k
+    let db := (checkTTL db env.now k).1
     match getList db k with
     | some none => (wrongType, db)
     | none =>
@@ -54,7 +54,7 @@ def popN (left : Bool) (n : Nat) (l : List Bytes) : List Bytes × List Bytes :=
 
 def popGen (left : Bool) : Cmd := fun env db args =>
   let run (k : Bytes) (cnt : Option Nat) : Reply × Db :=
-    let (db, _) := checkTTL db env.now k
+    let db := (checkTTL db env.now k).1
     match getList db k with
     | none => ((match cnt with | none => nil | some _ => nilArr), db)
     | some none => (wrongType, db)
@@ -82,7 +82,7 @@ def cmdRPop : Cmd := popGen false
 def cmdLLen : Cmd := fun env db args =>
   match args with
   | [_, k] =>
-    let (db, _) := checkTTL db env.now k
+    let db := (checkTTL db env.now k).1
     match getList db k with
     | none => (.int 0, db)
     | some none => (wrongType, db)
@@ -95,7 +95,7 @@ def cmdLIndex : Cmd := fun env db args =>
     match parseI64 i with
     | none => (errInt, db)
     | some i =>
-      let (db, _) := checkTTL db env.now k
+      let db := (checkTTL db env.now k).1
       match getList db k with
       | none => (nil, db)
       | some none => (wrongType, db)
@@ -113,7 +113,7 @@ def cmdLSet : Cmd := fun env db args =>
     match parseI64 i with
     | none => (errInt, db)
     | some i =>
-      let (db, _) := checkTTL db env.now k
+      let db := (checkTTL db env.now k).1
       match getList db k with
       | none => (errNoKey, db)
       | some none => (wrongType, db)
@@ -128,7 +128,7 @@ def cmdLRange : Cmd := fun env db args =>
   | [_, k, s, e] =>
     match parseI64 s, parseI64 e with
     | some s, some e =>
-      let (db, _) := checkTTL db env.now k
+      let db := (checkTTL db env.now k).1
       match getList db k with
       | none => (bulks [], db)
       | some none => (wrongType, db)
@@ -141,7 +141,7 @@ def cmdLTrim : Cmd := fun env db args =>
   | [_, k, s, e] =>
     match parseI64 s, parseI64 e with
     | some s, some e =>
-      let (db, _) := checkTTL db env.now k
+      let db := (checkTTL db env.now k).1
       match getList db k with
       | none => (ok, db)
       | some none => (wrongType, db)
@@ -162,7 +162,7 @@ def cmdLRem : Cmd := fun env db args =>
     match parseI64 c with
     | none => (errInt, db)
     | some c =>
-      let (db, _) := checkTTL db env.now k
+      let db := (checkTTL db env.now k).1
       match getList db k with
       | none => (.int 0, db)
       | some none => (wrongType, db)
@@ -218,7 +218,7 @@ def cmdLPos : Cmd := fun env db args =>
     match parsePosOpts opts {} with
     | none => (errSyntax, db)
     | some o =>
-      let (db, _) := checkTTL db env.now k
+      let db := (checkTTL db env.now k).1
       match getList db k with
       | none => ((match o.count with | none => nil | some _ => bulks []), db)
       | some none => (wrongType, db)
@@ -246,8 +246,8 @@ def cmdLMove : Cmd := fun env db args =>
   | [_, src, dst, wf, wt] =>
     match parseDir wf, parseDir wt with
     | some fromLeft, some toLeft =>
-      let (db, _) := checkTTL db env.now src
-      let (db, _) := checkTTL db env.now dst
+      let db := (checkTTL db env.now src).1
+      let db := (checkTTL db env.now dst).1
       match getList db src with
       | none => (nil, db)
       | some none => (wrongType, db)
@@ -274,7 +274,7 @@ def cmdLMove : Cmd := fun env db args =>
 def bpopScan (left : Bool) (now : Int) : Db → List Bytes → Option Reply × Db
 | db, [] => (none, db)
 | db, k :: ks =>
-  let (db, _) := checkTTL db now k
+  let db := (checkTTL db now k).1
   match getList db k with
   | none => bpopScan left now db ks
   | some none => (some wrongType, db)
